@@ -119,6 +119,7 @@ theorem runFrom_markersOK (c : Cfg) (ops : List Op) (p : Proc) (e : Topic → Bo
     | trk n =>
       simp only [markersOK, step]
       split <;> exact ih _ _ h
+    | trks => simp only [markersOK, step]; exact ih _ _ h
     | count t =>
       simp only [step]
       have := minv_withInst_frame p e (fun i => (p, i, .num ((i.counts.get? t).getD 0))) h (fun i _ => ⟨rfl, rfl⟩)
